@@ -446,6 +446,49 @@ def add_plans(rng, ops):
     return out
 
 
+# S1 / S6 (findings; notes/agents/C06.md "Residual findings"): a hand-written RecordUpdateListener that registers a listener WITH a question
+# from inside its UPDATE callback (async_add_listener purges and runs nested rounds in the middle of the datagram's first round).  Browsers
+# iterated after it are told Removed twice for a withdrawn record that had run out unpurged (S1); browsers iterated before it have their
+# pending Added fired by the nested completion before the datagram's records are cached (S6).  Outside the model (stage O only).
+S1_SIG = "C04:update-round-reentrant-listener:removed-twice"
+S6_SIG = "C04:update-round-reentrant-listener:added-before-cached"
+
+
+def update_round_histories():
+    P, PB, A = VOCAB[0], VOCAB[2], VOCAB[10]
+    q = ["_other._tcp.local.", 12, 1]
+    for others in ([0], [0, 4]):
+        t0 = CC.T0
+        # S1: listener 1 is iterated before the browsers
+        ops = [["BA", b, t0, [TX]] for b in others] + [["LA", 1], ["D", t0, [CC.inst(P, 120, 0)], []],
+               ["D", t0 + 1125000 + 500, [CC.inst(P, 0, 0)], [[1, 1, 2, 3, 0] + q]], ["X", t0 + 1130000]]
+        yield ops
+        # S6: listener 12 is iterated after the browsers (hash 12 > 7 + id)
+        ops = [["BA", b, t0, [TX]] for b in others] + [["LA", 12], ["D", t0, [CC.inst(A, 120, 0)], []],
+               ["D", t0 + 121000, [CC.inst(PB, 4500, 0)], [[1, 12, 2, 3, 0] + q]], ["X", t0 + 130000]]
+        yield ops
+
+
+def oracle_update_round(probes, ops, obs, res):
+    out = []
+    for idx, sig, what in oracle(probes, ops, obs, res):
+        o = obs[idx] if idx < len(obs) else {}
+        reentrant = any(x[2] == 2 and x[4] == 1 for x in (o.get("executed") or []))
+        if reentrant and sig == "C04:removed-without-added":
+            out.append((idx, S1_SIG, "a listener registered another listener with a question from inside its update callback while the record the datagram "
+                        "withdraws had run out unpurged: the nested purge round and the datagram's own completion round both report it; " + what))
+        elif reentrant and sig in ("C04:added-before-cached", "C04:callback-before-cache-update"):
+            out.append((idx, S6_SIG, "a listener registered another listener with a question from inside its update callback: the nested completion round "
+                        "fired a browser's pending callback before the datagram's records were cached; " + what))
+        else:
+            out.append((idx, sig, what))
+    return out
+
+
+def update_round_valid(ops):
+    return any(o[0] == "D" and any(r[2] == 2 for r in o[3]) for o in ops)
+
+
 def d23b_valid(ops):
     return any(o[0] == "BA" and len(o) > 4 and o[4] for o in ops)
 
@@ -501,6 +544,12 @@ def run(ctx):
         run_.add("d25-browser-created-in-handler", probes, ops)
         n_d25 += 1
     res.count("d25-histories", n_d25)
+
+    # S1 / S6: known findings (a custom listener re-entering from the update round), stage O only
+    run_ur = CC.Runner(res, "C04", ctx, oracle_update_round, valid=update_round_valid)
+    for ops in update_round_histories():
+        run_ur.add("update-round-reentrant-listener", probes, ops, model_on=False)
+    run_ur.finish()
 
     # outside the quantifier: model correspondence only (exercises the Added > Removed > Updated precedence, which WFHist makes unreachable)
     probes_w = CC.vocab_probes(VOCAB_WILD, [TX, TY, TZ])
